@@ -305,9 +305,10 @@ fn long_declaration(rng: &mut Rng) -> (String, Vec<u8>, Option<String>) {
     } else {
         text.chars().map(|c| cp1252_byte(c).unwrap()).collect()
     };
-    // within the limit the text must come back; beyond it only UTF-8 / BOM cases do
+    // the text must come back (beyond the limit the declaration is not read: for labels other than
+    // UTF-8 and without byte order mark the oracle reports C02:decode-long-declaration-beyond-1024-…)
     let end = lead + per * (text.find("?>").unwrap() + 2);
-    let expect = if end <= 1024 || label == "UTF-8" || bom { Some(text.clone()) } else { None };
+    let expect = Some(text.clone());
     (format!("long-declaration-{}", if end <= 1024 { "within-1024" } else { "beyond-1024" }), bytes, expect)
 }
 
@@ -493,6 +494,14 @@ pub fn run(seed: u64, count: usize, tier: &str, sink: &mut Sink) {
                 let (_, bytes, _) = encoded_rendering(&mut rng);
                 let n = if rng.chance(1, 2) { rng.below(bytes.len().min(80) + 1) } else { rng.below(bytes.len() + 1) };
                 case(sink, "truncation", &bytes[..n], None);
+            }
+            15 if rng.chance(1, 4) => {
+                // a UTF-8 document WITHOUT declaration that starts with a processing instruction whose
+                // target has a non-ASCII character: the ASCII bytes alone read `<?xml encoding=…?>`
+                let target = *rng.pick(&["éxml", "xmlé", "xéml", "x\u{3b1}ml", "xml\u{b7}"]);
+                let label = *rng.pick(&["latin1", "windows-1252", "utf-16", "koi8-r", "utf-8", "x-unknown-zz"]);
+                let text = format!("<?{} encoding=\"{}\"?><a>é</a>", target, label);
+                case(sink, "pi-target-lookalike", text.as_bytes(), Some(&text));
             }
             15 => case(sink, "head-bytes", &head_bytes(&mut rng), None),
             16 => {
